@@ -535,6 +535,24 @@ def run(prog: Program, res: Result, tier: str) -> None:
         and norm(n.args[1]) in ("0", "0.0") for n in ast.walk(dfd.node))
     pair_iter = re.search(r"combinations\(.*, 2\)", at) is not None
     diag_store = any(a_ == b_ for a_, b_ in stores)
+    # pairs WITH repetition include (i, i): the diagonal is filled
+    if "combinations_with_replacement(" in at or re.search(
+            r"product\(.*repeat=2\)", at):
+        diag_store = True
+    # a per-element table spread over the atoms (T[ix[:, None], ix[None, :]],
+    # T[np.ix_(ix, ix)]): entry (a, a) is the element's cut-off with itself
+    # (or, if T's diagonal is empty, equal elements never bond)
+    for n in ast.walk(dfd.node):
+        if isinstance(n, ast.Subscript) and (
+                "np.ix_(" in norm(n.slice, 200) or (
+                    isinstance(n.slice, ast.Tuple) and len(
+                        n.slice.elts) == 2 and "None" in norm(n.slice, 200))):
+            if isinstance(n.slice, ast.Tuple):
+                roots = {re.sub(r"\[.*", "", norm(x, 200))
+                         for x in n.slice.elts}
+                if len(roots) != 1:
+                    continue
+            diag_store = True
     if diag_clear or (zero_init and pair_iter and not diag_store):
         res.ok("X-CONN", inst, dfd.loc())
     elif diag_store or not zero_init:
